@@ -86,13 +86,15 @@ theorem proxy_header_writers :
     Generated.C09.dynWritesProxyHeader = dynWritesProxyHeader ∧ Generated.C09.wsWritesProxyHeader = false := by decide
 
 /-- `WriteProxyHeader` builds the line from these parts in this order, the family from the client
-address alone, the addresses from the client connection's `RemoteAddr()` / `LocalAddr()`. -/
+address alone, the addresses from the client connection's `RemoteAddr()` / `LocalAddr()` (the set of
+`SplitHostPort` arguments, sorted; unexported helpers `WriteProxyHeader` calls are followed with their parameters
+standing for the arguments). -/
 theorem proxy_header_parts :
     Generated.C09.pxyHeaderParts =
       ["lit:PROXY ", "family", "lit: ", "clientAddr", "lit: ", "serverAddr", "lit: ", "clientPort", "lit: ",
        "serverPort", "lit:\r\n"] ∧
     Generated.C09.pxyFamily = ["TCP4 if net.ParseIP(clientAddr).To4() != nil", "TCP6 otherwise"] ∧
-    Generated.C09.pxySplitArgs = ["client.RemoteAddr().String()", "client.LocalAddr().String()"] :=
+    Generated.C09.pxySplitArgs = ["client.LocalAddr().String()", "client.RemoteAddr().String()"] :=
   ⟨rfl, rfl, rfl⟩
 
 /-- The socket contract the tunnel machine assumes (orderly close, writes without deadline) is not
